@@ -1,7 +1,7 @@
 (* C04 - A failing callback leaves a consistent, usable machine.  Statements only. *)
 From Coq Require Import List Arith Bool.
 Import ListNotations.
-From PySM Require Import Impl.Engine Proofs.EngineFrame Proofs.EngineProofs Proofs.EngineRefine Proofs.NonRtcProofs.
+From PySM Require Import Proofs.WritesLocal Impl.Engine Proofs.EngineFrame Proofs.EngineProofs Proofs.EngineRefine Proofs.NonRtcProofs.
 
 (* a failure in validators / conditions / before / exit / on: the exception escapes _activate and the
    stored state is still the one before the transition (the source) *)
@@ -23,6 +23,31 @@ Theorem C04_failure_after_assignment :
     activate beh nested rm t td c = Exn c' e /\ field c' = Some (a_tgt t).
 Proof. exact activate_fails_in_post. Qed.
 Print Assumptions C04_failure_after_assignment.
+
+(* the same two under local hypotheses: only the callbacks of that half of this transition are required not to
+   assign the state themselves through the low-level API; any other callback of the machine may *)
+Theorem C04_failure_before_assignment_local :
+  forall beh nested rm, (forall td c, Rres grows c (nested td c)) ->
+  forall t td c c' e, quiet beh (first_half_cbs t) ->
+    activate_pre beh nested rm t (act_ctx t td c) (set_nact c (S (nact c))) = Exn c' e ->
+    activate beh nested rm t td c = Exn c' e /\ field c' = field c.
+Proof. exact activate_fails_in_pre_local. Qed.
+Print Assumptions C04_failure_before_assignment_local.
+
+Theorem C04_failure_after_assignment_local :
+  forall beh nested rm, (forall td c, Rres grows c (nested td c)) ->
+  forall t td c c1 v c' e, quiet beh (second_half_cbs t) ->
+    activate_pre beh nested rm t (act_ctx t td c) (set_nact c (S (nact c))) = Ok c1 (Some v) ->
+    activate_post beh nested rm t (act_ctx t td c) c1 = Exn c' e ->
+    activate beh nested rm t td c = Exn c' e /\ field c' = Some (a_tgt t).
+Proof. exact activate_fails_in_post_local. Qed.
+Print Assumptions C04_failure_after_assignment_local.
+
+Theorem C04_activate_outcomes_local :
+  forall beh nested rm, (forall td c, Rres grows c (nested td c)) ->
+  forall t td c, quiet beh (all_cbs t) -> act_effect t c (activate beh nested rm t td c).
+Proof. exact activate_effect_local. Qed.
+Print Assumptions C04_activate_outcomes_local.
 
 (* never anything else: every outcome of one _activate call is one of: rejected (state, lock
    untouched), fired (target stored), failed before the assignment, failed after it *)
